@@ -10,7 +10,7 @@ rvars == <<tvars, rx>>
 
 Rx0 == [seen |-> FALSE, how |-> "none", hops |-> 0, trigger |-> TRUE, marked |-> TRUE,
         actIn |-> [present |-> FALSE], actOut |-> [present |-> FALSE], cfgIn |-> [present |-> FALSE],
-        cfgOut |-> [present |-> FALSE], statuses |-> <<>>, probeUp |-> TRUE, probeDown |-> TRUE]
+        cfgOut |-> [present |-> FALSE], statuses |-> <<>>, probeUp |-> TRUE, probeDown |-> TRUE, consUp |-> TRUE, consDown |-> TRUE]
 
 RInit == TInit /\ rx = Rx0
 
@@ -18,7 +18,8 @@ TChain == /\ IsEvent("chain") /\ rx' = Rx0 /\ UNCHANGED <<vars, obs>>
 TXfer == /\ IsEvent("xfer") /\ UNCHANGED <<vars, obs>>
          /\ rx' = [seen |-> TRUE, how |-> Ev.how, hops |-> Ev.hops, trigger |-> Ev.trigger, marked |-> Ev.marked,
                    actIn |-> Ev.actIn, actOut |-> Ev.actOut, cfgIn |-> Ev.cfgIn, cfgOut |-> Ev.cfgOut,
-                   statuses |-> Ev.statuses, probeUp |-> Ev.probeUp, probeDown |-> Ev.probeDown]
+                   statuses |-> Ev.statuses, probeUp |-> Ev.probeUp, probeDown |-> Ev.probeDown,
+                   consUp |-> Ev.consUp, consDown |-> Ev.consDown]
 
 RNext == (TNext /\ rx' = IF Ev.e = "reset" THEN Rx0 ELSE rx) \/ TChain \/ TXfer
 RSpec == RInit /\ [][RNext /\ UNCHANGED PauseVars]_rvars
@@ -36,6 +37,8 @@ ROnlyAdds == BothCfg =>
 (* every relay is back in standby after the transfer ended and is transparent again *)
 RRecovers == rx.seen => (/\ \A i \in 1..Len(rx.statuses) : rx.statuses[i] = 0
                          /\ rx.probeUp /\ rx.probeDown)
+(* whatever way a transfer ends: every line either end wrote left the chain once, in order *)
+RConserved == rx.seen => (rx.consUp /\ rx.consDown)
 (* a transfer through relays gives the same result as a direct one *)
 RSameResult == (rx.seen /\ rx.how = "success") => (\A r \in Roles : result[r] = "ok") /\ Fidelity
 =============================================================================
